@@ -157,7 +157,29 @@ C14_Priority ==
                 ~ClearlyBetter(st.orders[u], st.orders[f]),
           [at |-> WhereTx, consumed |-> [o \in Consumed |-> <<st.orders[o].sell, st.orders[o].buy>>],
            untouched |-> [o \in (DOMAIN st.orders \cap DOMAIN st'.orders) \ Touched |-> <<st.orders[o].sell, st.orders[o].buy, st.orders[o].sellCoin>>]])
-C14_Step == C14_Add /\ C14_Cancel /\ C14_IdsFresh /\ C14_Expire /\ C14_NoSilentRemoval /\ C14_PriceKept /\ C14_Dust /\ C14_Priority
+\* what the maker gets: an order that a trade fills (partly or completely) pays its owner exactly the wanted amount of the part
+\* filled; an order that a trade closes (filled completely, or left with a remainder below the minimum volume) has paid, in
+\* wanted coins at the order's price plus refunded escrow, exactly what was escrowed (within the rounding of one unit per side).
+\* Evaluated for owners with a single order consumed in the step who are not the sender of the transaction.
+OwnersOf(os) == {st.orders[o].owner : o \in os}
+OrdersOfIn(x, os) == {o \in os : st.orders[o].owner = x}
+GainOf(x, c) == Bal(st', x, c) -- Bal(st, x, c)
+C14_OwnerPaid ==
+   Clause("C14", "MakerPaidAtOrderPriceAndRefundedExactly", Delivered /\ Code = 0 /\ Consumed # {},
+          \A x \in OwnersOf(Consumed) \ {S} :
+             (Cardinality(OrdersOfIn(x, Consumed)) = 1) =>
+                LET o == CHOOSE q \in OrdersOfIn(x, Consumed) : TRUE
+                    a == st.orders[o]
+                IN IF o \in DOMAIN st'.orders
+                   THEN /\ GainOf(x, a.buyCoin) = a.buy -- st'.orders[o].buy
+                        /\ GainOf(x, a.sellCoin) = Zero
+                   ELSE AbsDiff((a.sell ** GainOf(x, a.buyCoin)) ++ (a.buy ** GainOf(x, a.sellCoin)), a.sell ** a.buy)
+                           \preceq (Nat2A(2) ** (a.sell ++ a.buy)),
+          [at |-> WhereTx, makers |-> [x \in OwnersOf(Consumed) \ {S} |->
+                                         [orders |-> [o \in OrdersOfIn(x, Consumed) |-> <<st.orders[o].sell, st.orders[o].buy, st.orders[o].sellCoin, st.orders[o].buyCoin,
+                                                                                           IF o \in DOMAIN st'.orders THEN st'.orders[o].sell ELSE "gone">>],
+                                          gains |-> [c \in AllCoins(st, st') |-> GainOf(x, c)]]]])
+C14_Step == C14_Add /\ C14_Cancel /\ C14_IdsFresh /\ C14_Expire /\ C14_NoSilentRemoval /\ C14_PriceKept /\ C14_Dust /\ C14_Priority /\ C14_OwnerPaid
 
 \* ======================================================================== C22
 ActiveSyms(s) == [c \in {x \in DOMAIN s.coins : s.coins[x].ver = 0} |-> s.coins[c].sym]
